@@ -87,7 +87,7 @@ fn shapes() -> Vec<Shape> {
         for r in legacy(SIG_RSA) {
             for d in legacy(SIG_DSA) {
                 for p in legacy(SIG_PGP) {
-                    for dg in ["none", "sha256-ok", "sha256-wrong", "sha256-prefix-wrong", "sha256-empty-wrong", "sha1-prefix-wrong", "sha1+md5-ok", "md5-wrong", "payload-wrong", "size-small", "longsize-small", "size-zero"] {
+                    for dg in ["none", "sha256-ok", "sha256-wrong", "sha256-prefix-wrong", "sha256-empty-wrong", "sha1-prefix-wrong", "sha256-nonhex-wrong", "sha256-oddlen-wrong", "sha1-nonhex-wrong", "sha1+md5-ok", "md5-wrong", "payload-wrong", "size-small", "longsize-small", "size-zero"] {
                         v.push(Shape { openpgp: o.clone(), openpgp_kind: ok, rsa: r.clone(), dsa: d.clone(), pgp: p.clone(), digests: dg });
                     }
                 }
@@ -144,6 +144,19 @@ fn synth(base: &Base, sh: &Shape) -> Vec<u8> {
         "size-small" => items.push((tag::SIG_SIZE, Val::Int32(vec![base.hdr.len() as u32 + 1]))),
         "longsize-small" => items.push((tag::SIG_LONGSIGSIZE, Val::Int64(vec![base.hdr.len() as u64 / 2]))),
         "size-zero" => items.push((tag::SIG_SIZE, Val::Int32(vec![0]))),
+        // a recorded digest that is not hex text at all (one character off the alphabet, odd length)
+        // is a digest that does not match, not a digest that is not there
+        "sha256-nonhex-wrong" => {
+            let mut w = sha256.clone().into_bytes();
+            w[10] ^= 0x40;
+            items.push((tag::SIG_SHA256, Val::Str(w)));
+        }
+        "sha256-oddlen-wrong" => items.push((tag::SIG_SHA256, Val::str(&sha256[..63]))),
+        "sha1-nonhex-wrong" => {
+            let mut w = hex::encode(sha1::Sha1::digest(&base.hdr)).into_bytes();
+            w[0] = b'g';
+            items.push((tag::SIG_SHA1, Val::Str(w)));
+        }
         "sha1+md5-ok" | "md5-wrong" => {
             items.push((tag::SIG_SHA1, Val::str(&hex::encode(sha1::Sha1::digest(&base.hdr)))));
             let mut m = md5::Md5::new();
@@ -187,7 +200,7 @@ fn judge_shape(base: &Base, sh: &Shape, script: &[bool], default_answer: bool) -
     );
     if res.is_ok() {
         if base.unsupported_payload_algo {
-            out.push(("ok-with-unsupported-payload-digest-algorithm".to_string(), format!("verify_signature returns Ok although the payload digest is recorded with an algorithm the library cannot compute ({shape_class})")));
+            out.push(("ok-with-unverifiable-payload-digest".to_string(), format!("verify_signature returns Ok although the payload digest is recorded with an algorithm the library cannot compute, or its first recorded string is wrong ({shape_class})")));
         }
         if calls.is_empty() {
             out.push((format!("ok-without-verifier-call:openpgp={}", sh.openpgp_kind), format!("verify_signature returns Ok although the verifier was never consulted ({shape_class}, digests {})", sh.digests)));
@@ -288,6 +301,17 @@ fn run(ctx: &Ctx, rep: &Report) {
     }
     // hand-encoded bases whose (signed) main header announces a payload digest algorithm the library
     // cannot compute: 12 and 14 are SHA3-256 / SHA3-512, 99 is nobody's
+    {
+        // two payload digest strings, the first wrong, the second right: a mismatch under every reading
+        let payload = b"payload of the two-digest base".to_vec();
+        let right = sha256_hex(&payload);
+        let mut wrong = right.clone().into_bytes();
+        wrong[3] = if wrong[3] == b'0' { b'1' } else { b'0' };
+        let mut items: Vec<(u32, Val)> = vec![(tag::NAME, Val::str("two")), (tag::VERSION, Val::str("1")), (tag::RELEASE, Val::str("1")), (tag::ARCH, Val::str("noarch")), (tag::PAYLOADDIGEST, Val::StrArray(vec![wrong, right.into_bytes()])), (tag::PAYLOADDIGESTALGO, Val::Int32(vec![8]))];
+        items.sort_by_key(|(t, _)| *t);
+        let (he, hs) = layout_with_region(tag::HDR_REGION, &items);
+        bases.push(Base { lead: enc_lead("two"), hdr: enc_header(&he, &hs), payload, has_payload_digest: false, unsupported_payload_algo: true });
+    }
     for algo in [12u32, 14, 99] {
         let payload = b"payload of the unsupported-algorithm base".to_vec();
         let mut items: Vec<(u32, Val)> = vec![(tag::NAME, Val::str("algo")), (tag::VERSION, Val::str("1")), (tag::RELEASE, Val::str("1")), (tag::ARCH, Val::str("noarch")), (tag::PAYLOADDIGEST, Val::StrArray(vec![sha256_hex(&payload).into_bytes()])), (tag::PAYLOADDIGESTALGO, Val::Int32(vec![algo]))];
